@@ -27,11 +27,14 @@ def jsonOfEv : Ev → Json
   | .send m => Json.mkObj [("e", "send"), ("m", Json.num (JsonNumber.fromNat m))]
 
 /-- Outcome of one event: what a peer can observe. -/
-def outcome (s s' : St) : Ev → Json
+def outcome (closed : List Nat) (s s' : St) : Ev → Json
   | .send _ =>
     if s'.delivered.length > s.delivered.length then
       match s'.delivered.getLast? with
-      | some (c, _) => Json.mkObj [("delivered", Json.num (JsonNumber.fromNat c))]
+      | some (c, _) =>
+        -- a frame written to a stream the client has already dropped cannot be observed by any peer
+        if closed.contains c then Json.mkObj [("delivered", "to-closed")]
+        else Json.mkObj [("delivered", Json.num (JsonNumber.fromNat c))]
       | none => Json.mkObj [("failed", true)]
     else Json.mkObj [("failed", true)]
   | _ => Json.mkObj [("ok", true)]
@@ -66,12 +69,14 @@ def handle (op : String) (j : Json) : Except String Json := do
   match op with
   | "run" =>
     let evs ← (← getArr j "evs").toList.mapM evOfJson
-    let rec go (s : St) : List Ev → List Json
+    let rec go (closed : List Nat) (s : St) : List Ev → List Json
       | [] => []
       | e :: es => match step f s e with
         | none => [Json.mkObj [("disabled", true)]]
-        | some s' => outcome s s' e :: go s' es
-    pure (Json.mkObj [("outs", Json.arr (go {} evs).toArray)])
+        | some s' =>
+          let closed' := match e with | .clientClose n => n :: closed | _ => closed
+          outcome closed s s' e :: go closed' s' es
+    pure (Json.mkObj [("outs", Json.arr (go [] {} evs).toArray)])
   | "enumerate" =>
     let hN ← getNat j "handlers"
     let d ← getNat j "depth"
